@@ -6,6 +6,7 @@
    the known deviations; the first occurrence of each (kind) per trace is printed as a DEV line. *)
 EXTENDS Mvcc, Json, IOUtils
 Ev == ndJsonDeserialize(IOEnv.TRACE)
+CONSTANT CopyOnly  \* TRUE: validate only the C07 copy observations (xn, xe, xok); FALSE: every read kind
 CONSTANT DevAll   \* TRUE: print the deviating kinds of every event (witness runs); FALSE: first occurrence per trace
 VARIABLES l, devs
 tvars == <<vars, l, devs>>
@@ -34,8 +35,9 @@ DevKinds(e) ==
                [] k = "no" -> SeqOfSets(e.obs.no[s]) # INOx(G, nn', esrc', edst')
                [] k = "ni" -> SeqOfSets(e.obs.ni[s]) # INIx(G, nn', esrc', edst')} : s \in Sess }
   \cup (IF e.obs.nc # INC' THEN {"nc"} ELSE {}) \cup (IF e.obs.ec # IEC' THEN {"ec"} ELSE {})
+  \cup (IF AsSet(e.obs.xn) # IXN' \/ AsSet(e.obs.xe) # IXE' THEN {"exp"} ELSE {})
 
-ObsX(e, extra) ==
+ObsReads(e) ==
   /\ \A s \in Sess :
        LET G == View(s)' IN
        /\ NoDup(e.obs.ls[s]) /\ Either(AsSet(e.obs.ls[s]), MLS(s)', ILS(G))
@@ -46,7 +48,17 @@ ObsX(e, extra) ==
        /\ Either(SeqOfSets(e.obs.ni[s]), MNI(s)', INIx(G, nn', esrc', edst'))
   /\ Either(e.obs.nc, MNC', INC')
   /\ Either(e.obs.ec, MEC', IEC')
-  /\ LET dk == DevKinds(e) \cup extra IN
+ObsCopies(e) ==
+  \* C07: import(export), to_memory (and, when sampled, save+open / open_in_memory) give the same copy,
+  \* equal to what all_nodes/all_edges enumerate (mechanism) or to the committed graph (ideal);
+  \* the copies agree with each other, two exports are byte-identical, the source is unchanged
+  /\ NoDup(e.obs.xn) /\ Either(AsSet(e.obs.xn), MXN', IXN')
+  /\ NoDup(e.obs.xe) /\ Either(AsSet(e.obs.xe), MXE', IXE')
+  /\ e.obs.xok
+ObsX(e, extra) ==
+  /\ (IF CopyOnly THEN TRUE ELSE ObsReads(e))
+  /\ ObsCopies(e)
+  /\ LET dk == (IF CopyOnly THEN DevKinds(e) \cap {"exp"} ELSE DevKinds(e) \cup extra) IN
        /\ devs' = devs \cup dk
        /\ (IF DevAll THEN (IF dk = {} THEN TRUE ELSE PrintT(<<"DEV", l, dk>>))
            ELSE IF dk \subseteq devs THEN TRUE ELSE PrintT(<<"DEV", l, dk \ devs>>))
